@@ -538,6 +538,9 @@ func (ex *Exec) applyContract(ct *Contract, key string, sig *types.Signature, na
 	}
 	baseLen := len(c.script)
 	for _, en := range ct.Ensures {
+		if en.Assumed {
+			c.trust(fmt.Sprintf("%s: postcondition %q is an assumption about a dependency (assumed-ensures)", key, en.Text))
+		}
 		c.assume(Implies(And(append([]Term{ex.rch}, dom...)...), ex.evalBool(post, en)))
 	}
 	if len(ct.Ensures) > 0 && ex.parent == nil {
